@@ -19,7 +19,11 @@ import (
 	"context"
 	"encoding/json"
 	"fmt"
+	"os"
+	"path/filepath"
 	"reflect"
+	"regexp"
+	"sort"
 	"strings"
 
 	"github.com/openkruise/rollouts/api/v1beta1"
@@ -517,8 +521,43 @@ var igVals = []string{"", "true", "gray", "v1", "50", "-1", "^v[0-9]+$", "a b", 
 func igPick(c *Ctx, xs []string) string { return xs[c.Rng.Intn(len(xs))] }
 func igStrp(s string) *string            { return &s }
 
+// igSourceKeys: annotation keys the built-in Lua scripts of the CURRENT tree name (`annotations["…"]`) that this generator
+// does not know - regenerated from lua_configuration/trafficrouting_ingress/*.lua on every run (cwd = repository root), so a
+// script that starts to read or rewrite a further annotation meets user Ingresses that carry it
+var igSourceKeys = func() []string {
+	known := map[string]bool{}
+	for _, k := range igUserKeys {
+		known[k] = true
+	}
+	for _, k := range igScriptKeys {
+		known[k] = true
+	}
+	out := []string{}
+	files, _ := filepath.Glob("lua_configuration/trafficrouting_ingress/*.lua")
+	re := regexp.MustCompile(`annotations\["([^"]+)"\]`)
+	for _, f := range files {
+		b, err := os.ReadFile(f)
+		if err != nil {
+			continue
+		}
+		for _, m := range re.FindAllStringSubmatch(string(b), -1) {
+			if !known[m[1]] {
+				known[m[1]] = true
+				out = append(out, m[1])
+			}
+		}
+	}
+	sort.Strings(out)
+	return out
+}()
+
 func igGenAnn(c *Ctx) map[string]string {
 	m := map[string]string{}
+	for _, k := range igSourceKeys {
+		if c.Rng.Intn(2) == 0 {
+			m[k] = igPick(c, []string{`{"echoserver":"grpc"}`, `{"echoserver":"grpc"}`, "gray", ""})
+		}
+	}
 	switch c.Rng.Intn(8) {
 	case 0:
 		return m // no annotations at all
